@@ -114,8 +114,26 @@ func goCtx() pongo2.Context {
 		"stg":  stringerT(3),
 		"fmap": func() map[string]int { return map[string]int{"z": 26} },
 		"val":  pongo2.AsValue(map[string]any{"inner": "viaValue"}),
+		// maps whose key type is not plain string
+		"am": map[any]any{"a": "any-a", "k": 7},
+		"cm": map[colorT]string{"a": "color-a", "red": "R"},
+		"nm": namedMapT{"a": 11, "zz9": 12},
+		// implicit execution context in front of 3, 5 and 7 written arguments
+		"fc3": func(ctx *pongo2.ExecutionContext, a int, b string, c int) string {
+			return fmt.Sprintf("%d/%s/%d", a, b, c)
+		},
+		"fc5": func(ctx *pongo2.ExecutionContext, a, b, c, d, e int) string {
+			return fmt.Sprintf("%d%d%d%d%d", a, b, c, d, e)
+		},
+		"fc7": func(ctx *pongo2.ExecutionContext, a, b, c, d, e, f, g int) int {
+			return a + 2*b + 3*c + 4*d + 5*e + 6*f + 7*g
+		},
+		"two": []int{1, 2},
 	}
 }
+
+type colorT string
+type namedMapT map[string]int
 
 // ---------- model side ----------
 
@@ -265,6 +283,20 @@ func modelCtx() map[string]*Node {
 		"stg":  {K: "stringer", P: "S3"},
 		"fmap": fn(nil, false, func(a []*Node) (*Node, bool) { return nMap("z", nInt(26)), false }),
 		"val":  nMap("inner", nStr("viaValue")),
+		"am":   nMap("a", nStr("any-a"), "k", nInt(7)),
+		"cm":   {K: "opaque"}, // a named string type as key: what a name step finds is left open (never a panic)
+		"nm":   nMap("a", nInt(11), "zz9", nInt(12)),
+		"fc3":  fn([]string{"int", "str", "int"}, false, func(a []*Node) (*Node, bool) { return nStr(a[0].P + "/" + a[1].P + "/" + a[2].P), false }),
+		"fc5": fn([]string{"int", "int", "int", "int", "int"}, false, func(a []*Node) (*Node, bool) {
+			return nStr(a[0].P + a[1].P + a[2].P + a[3].P + a[4].P), false
+		}),
+		"fc7": fn([]string{"int", "int", "int", "int", "int", "int", "int"}, false, func(a []*Node) (*Node, bool) {
+			sum := 0
+			for i, x := range a {
+				sum += (i + 1) * argInt(x)
+			}
+			return nInt(sum), false
+		}),
 	}
 }
 
@@ -555,8 +587,23 @@ func (c *Case) Exec(t *eng.T) {
 		src = "[{{ " + p + "|length }}]"
 	case "if":
 		src = "[{% if " + p + " %}T{% else %}F{% endif %}]"
+	case "repeat":
+		// the same written expression evaluated three times (two loop passes, then once more by a second
+		// execution of the compiled template)
+		src = "{% for q in two %}[{{ " + p + " }}]{% endfor %}"
 	}
 	out := px.Render(nil, src, goCtx())
+	if c.Sink == "repeat" && !out.Failed() {
+		if tpl, o1 := px.Compile(pongo2.NewSet("c08-repeat", pongo2.MustNewLocalFileSystemLoader("")), src); tpl != nil {
+			px.Exec(tpl, goCtx())
+			if o2 := px.Exec(tpl, goCtx()); o2.String() != out.String() {
+				t.Fail("resolve:second-execution-differs", "%s renders %s on the second execution of the compiled template and %s on the first", src, o2, out)
+				return
+			}
+		} else {
+			_ = o1
+		}
+	}
 	t.Outcome(out.Kind())
 	if out.Panic != "" {
 		t.Fail("resolve:panic:"+out.Panic, "%s panics: %s", src, out.PanicMsg)
@@ -597,6 +644,15 @@ func (c *Case) Exec(t *eng.T) {
 			exp = "[" + want.P + "]"
 		default:
 			return // printed form of collections/structs/funcs is not specified
+		}
+	case "repeat":
+		switch want.K {
+		case "nil":
+			exp = "[][]"
+		case "int", "str", "bool", "float":
+			exp = "[" + want.P + "][" + want.P + "]"
+		default:
+			return
 		}
 	case "length":
 		switch want.K {
@@ -715,12 +771,14 @@ func callForms() []Step {
 	mk := func(a ...string) Step { return Step{Kind: "call", Args: a} }
 	return []Step{
 		mk(), mk("1"), mk(`"s"`), mk("1", "2"), mk("1", `"s"`), mk(`"s"`, "1"), mk(`"p"`, "1", "2"), mk("1", "2", "3"), mk("true"), mk("false"), mk("nilv"), mk("i"), mk(`"s"`, `"t"`), mk("stg"),
+		mk("1", `"s"`, "3"), mk("1", "2", "3", "4", "5"), mk("1", "2", "3", "4", "5", "6", "7"), mk("i", "ki", "3", "4", "i"), mk("1", "2", "3", "4", "5", "6"),
 	}
 }
 
 func run(r *eng.Runner) {
-	firsts := []string{"r", "rv", "m", "im", "l", "arr", "s", "i", "nilv", "missing", "f0", "f2", "fvar", "ferr", "fval", "fctx", "fmap", "val", "stg"}
+	firsts := []string{"am", "cm", "nm", "r", "rv", "m", "im", "l", "arr", "s", "i", "nilv", "missing", "f0", "f2", "fvar", "ferr", "fval", "fctx", "fmap", "val", "stg"}
 	sinks := []string{"print", "length", "if"}
+	callSinks := []string{"print", "length", "if", "repeat"}
 	steps := stepsFor()
 	subs := finalSubs()
 	calls := callForms()
@@ -728,7 +786,7 @@ func run(r *eng.Runner) {
 	if !r.Quick() {
 		depth = 3
 	}
-	r.Group("paths", "c08.case", fmt.Sprintf("every path of <=%d dot steps (43 step forms: valid and invalid keys, fields, unexported fields, methods, indices) from 18 context roots (struct pointer and value, maps with string and int keys, slices, arrays, strings, scalars, nil, funcs of every accepted signature, *Value), optionally ending in one of 13 subscript forms, x 3 sinks", depth))
+	r.Group("paths", "c08.case", fmt.Sprintf("every path of <=%d dot steps (43 step forms: valid and invalid keys, fields, unexported fields, methods, indices) from 22 context roots (struct pointer and value, maps with string, int, any and named-string keys, a named map type, slices, arrays, strings, scalars, nil, funcs of every accepted signature, *Value), optionally ending in one of 13 subscript forms, x 3 sinks", depth))
 	var rec func(first string, path []Step)
 	emit := func(first string, path []Step) {
 		for _, sk := range sinks {
@@ -759,13 +817,13 @@ func run(r *eng.Runner) {
 		rec(f, nil)
 	}
 
-	r.Group("calls", "c08.case", "every callable reachable within one step (context funcs and struct methods) x 13 argument lists (arity 0..3, right and wrong types, nil, variables) x 3 sinks, and one further step on the result")
+	r.Group("calls", "c08.case", "every callable reachable within one step (context funcs and struct methods) x 19 argument lists (arity 0..7, right and wrong types, nil, variables; functions taking the implicit execution context in front of 0, 3, 5 and 7 written arguments) x 4 sinks (the fourth evaluates the same written call in two loop passes and in a second execution of the compiled template), and one further step on the result")
 	type callee struct {
 		first string
 		pre   []Step
 	}
 	var cs []callee
-	for _, f := range []string{"f0", "f2", "fvar", "ferr", "fval", "fctx", "fmap", "fstr", "i", "m", "missing"} {
+	for _, f := range []string{"f0", "f2", "fvar", "ferr", "fval", "fctx", "fc3", "fc5", "fc7", "fmap", "fstr", "i", "m", "missing"} {
 		cs = append(cs, callee{f, nil})
 	}
 	for _, root := range []string{"r", "rv"} {
@@ -776,10 +834,15 @@ func run(r *eng.Runner) {
 		}
 		cs = append(cs, callee{root, []Step{{Kind: "name", S: "F"}}})
 	}
+	emitCall := func(first string, path []Step) {
+		for _, sk := range callSinks {
+			r.Do(&Case{First: first, Steps: append([]Step{}, path...), Sink: sk})
+		}
+	}
 	for _, c := range cs {
 		for _, call := range calls {
 			p := append(append([]Step{}, c.pre...), call)
-			emit(c.first, p)
+			emitCall(c.first, p)
 			for _, s := range []Step{{Kind: "name", S: "Name"}, {Kind: "name", S: "z"}, {Kind: "index", I: 0}, {Kind: "name", S: "inner"}} {
 				emit(c.first, append(append([]Step{}, p...), s))
 			}
